@@ -28,6 +28,11 @@ CHECKS = {
             "Frame layouts (gaps 1..12 steps incl. all-equal-to-dt, irregular), every kind of partition into files, start offsets, run lengths, both directions, 0-2 scalar fields, f4/f8 are generated; Forcing is driven step by step exactly as Model.update orders the calls, and velocity (also 0.5 and 1.0 step ahead) and scalars are compared with the reference after every step. Exploration: finds layout-dependent hand-over errors, proves nothing beyond the cases run.",
             "Reference interpolator in vlib/roms.py written from the property text; tolerance (maxgap+4)*4*eps; reversed runs accept either bracketing frame for scalars between frame steps.",
             "DESIGN.md section 3 C03"),
+    "C04": ("exploration",
+            "Hypothesis-generated release tables and windows; differential of the State after every release step against a reference release schedule",
+            "Tables (several times x rows, mult 0..5 or absent, rows before/in/at/after the window, extra int/float/time columns as instance or particle variables, header or names, column permutations, timestamp spellings, X/Y or lon/lat, discrete or continuous, forward or reversed) are read by the real ParticleReleaser; after each timer.update(); release.update() the newly appended particles must be exactly the scheduled rows repeated mult times, in file-row order, with their positions, extras and release time.",
+            "Times on the model grid, table sorted in simulation order, continuous file times on the tick grid (the property's quantifier); text->float parsing tolerance 1e-13.",
+            "DESIGN.md section 3 C04"),
     "C05": ("exploration",
             "exhaustive enumeration of operation sequences up to a bound + Hypothesis-generated longer sequences against a list-of-records model; pid laws on output records of generated end-to-end runs",
             "All sequences up to length 5 (quick) / 7 (thorough) over a 10-operation alphabet on ladim.state.State are compared with a reference model after every operation (complete within that bound); longer parametrised sequences are generated; generated end-to-end runs are read back and every record checked for strictly increasing pid and pid[k] >= k.",
@@ -43,6 +48,21 @@ CHECKS = {
             "sample2D: value, convexity, exactness on bilinear fields, insensitivity to masked nodes, undefined and outside substitutes (incl. 0.0 and NaN), ValueError without substitute. Grid: ll2xy(xy2ll(p)) must return, stay inside the array and meet the solver's stopping residual and the grid-unit bound it implies. End to end: particles released by lon/lat start where the interpolated coordinates match, and lon/lat in every record equal the bilinear interpolation at that record's X, Y.",
             "Sphere polar-stereographic grids 160 m..20 km, up to 60 (thorough 200) cells a side, not straddling +-180.",
             "DESIGN.md section 3 C16"),
+    "C09": ("exploration",
+            "Hypothesis-generated masks, subgrids, flows and positions against a reference of kill / inactive / land-cancel (one step); per-step invariants over generated end-to-end histories observed through recording plug-ins",
+            "One step of the real Tracker on the real Grid with a plug-in forcing that gives every particle its own strong constant velocity (so all schemes prescribe the same move) is compared with the reference outcome; generated simulations (stock forcing, diffusion on/off, all schemes) are observed after every step: the living are finite, inside the valid region and at sea, the dead never return nor appear in a later record, inactive particles keep X, Y.",
+            "A candidate position exactly half-way between two cells may be attributed to either; with diffusion on only the invariants apply.",
+            "DESIGN.md section 3 C09"),
+    "C11": ("exploration",
+            "Hypothesis-generated parameters and generator seeds; statistical oracle with explicit 6.5-sigma acceptance bands + exact metamorphic scaling relations under a shared seed",
+            "Clouds of 1e4..1e5 (thorough 1e6) particles in still water on an open plug-in grid: mean, variance (= 2*D*t per unit), X-Y, X-Z, step-to-step and neighbour correlations per case; quadrupling D doubles and doubling dx halves every displacement under the same seed; D = Dz = 0 is bitwise deterministic.",
+            "False-alarm probability ~8e-11 per statistical test; Tracker.rng is replaced by a seeded generator after construction.",
+            "DESIGN.md section 3 C11"),
+    "C15": ("exploration",
+            "Hypothesis-generated bathymetries, depths and vertical forcing against the validity predicate 0 <= Z' <= h(start cell); exact reflected value for advection-only cases",
+            "The real Tracker on a plug-in grid with generated bathymetry (ratios up to 5000), start depths incl. exactly 0 and h, vertical diffusion and/or advection within the property's premise, all horizontal schemes with flow into other cells, 1-4 steps.",
+            "Premise enforced with a 6.5-sigma margin on the random part; only particles starting inside [0, h] are judged.",
+            "DESIGN.md section 3 C15"),
     "C12": ("exploration",
             "Hypothesis-generated vertical set-ups and depths checked against validity predicates (monotone, bounded, interleaved) and the clamped-interpolation identity",
             "s_stretch, sdepth, z2s and Grid.z_r/z_w (from file and from Vinfo) are evaluated on generated N, stretching parameters, transforms, hc, bathymetries and depths incl. exactly on levels and outside the range.",
